@@ -122,10 +122,12 @@ class EnsembleSampler(MarkovChain):
                 """
             )
 
-        # copy, so the walkers don't share memory with the array owned by the caller
+        # copy, so the walkers don't share memory with the array owned by the caller.
+        # The copy is floating-point: proposals written into an integer array would
+        # be truncated to whole numbers.
         theta = (
             positions.reshape([positions.size, 1]) if positions.ndim == 1 else positions
-        ).copy()
+        ).astype(float)
 
         if theta.ndim != 2 or theta.shape[0] < (theta.shape[1] + 1):
             raise ValueError(
